@@ -303,7 +303,7 @@ def describe_iter(I, it):
     raise Unsupported(f'loop over {type(it).__name__} with invariant')
 
 
-LEMMA_BUILTINS = {'sum_unfold', 'sum_split', 'sum_nonneg', 'mul_distrib'}
+LEMMA_BUILTINS = {'sum_unfold', 'sum_split', 'sum_nonneg', 'mul_distrib', 'swap_val'}
 
 
 def assume_lemmas(I, lemmas):
@@ -353,9 +353,12 @@ def cut_loop(I, key, inv, s, it):
         # ghost snapshot of an expression at loop entry (not havocked: the body cannot assign it)
         I.spec_mode += 1
         try:
-            fr.locals[gname] = I.eval(ast.parse(gexpr, mode='eval').body)
+            gv = I.eval(ast.parse(gexpr, mode='eval').body)
         finally:
             I.spec_mode -= 1
+        gv = gv.copy() if isinstance(gv, SArr) else gv
+        fr.locals[gname] = gv
+        I.ghost.setdefault('__env__', {})[gname] = gv     # visible to later clauses (postconditions) as well
     saved_i = fr.locals.get('_i', None)
     fr.locals['_i'] = 0
     if niter is not None:
@@ -420,6 +423,14 @@ def cut_loop(I, key, inv, s, it):
     for nm, goal, text in eval_clauses(I, inv['inv'], f'{lname}-inv-use'):
         I.assume(goal)
     assume_lemmas(I, inv.get('lemmas'))
+    for hname, hexpr in inv.get('head_snapshot', {}).items():
+        # ghost copy of a value at the head of the (arbitrary) iteration, for two-state lemma instances
+        I.spec_mode += 1
+        try:
+            hv = I.eval(ast.parse(hexpr, mode='eval').body)
+        finally:
+            I.spec_mode -= 1
+        fr.locals[hname] = hv.copy() if isinstance(hv, SArr) else hv
     # ---- body or exit
     if is_for:
         cond = k < to_z3(niter)
@@ -453,6 +464,7 @@ def cut_loop(I, key, inv, s, it):
                 raise Unsupported(f'loop {key}: variable {name} changes shape in the body '
                                   f'({sh} -> {shape(fr.locals[name])})')
         assume_lemmas(I, inv.get('lemmas'))
+        assume_lemmas(I, inv.get('lemmas_pres'))      # two-state instances (iteration head vs. end of the body)
         for nm, goal, text in eval_clauses(I, inv['inv'], f'{lname}-inv-pres'):
             I.oblige(nm, goal, {'clause': text})
         if measure0 is not None:
